@@ -82,7 +82,7 @@ class BusProtocol (txdbus.protocol.BasicDBusProtocol):
         msg.sender = self.uniqueName
 
         # re-marshal with the sender set and same serial number
-        msg._marshal(False)
+        msg._marshal(False, reuseBody=True)
 
         self.bus.messageReceived(self, msg)
 
